@@ -1097,7 +1097,7 @@ Lemma construct_one f x : In f project_schema -> is_list_ty (f_ty f) = true ->
   construct [(f_name f, PList [PStr x])] = construct [(f_name f, PStr x)].
 Proof.
   intros Hin L. pose proof one_ok_all as A. rewrite Forall_forall in A.
-  destruct (A f Hin L x) as [E1 E2]. unfold construct, post_init. now rewrite E1, E2.
+  destruct (A f Hin L x) as [E1 E2]. unfold construct, post_init, post_checked. now rewrite E1, E2.
 Qed.
 
 (* file types: a dict of ExtraFileType (markdown) and a list of tables (TOML) *)
@@ -1106,7 +1106,7 @@ Definition post_defaults : settings := match construct [] with Ok st => st | Err
 Definition ft_ok (f : field) : Prop :=
   f_ty f = TDictFT ->
   (forall X, first_bad_key [(f_name f, X)] = None) /\
-  (forall X, post_core (wrap_lists (set_relative (overlay defaults [(f_name f, X)])))
+  (forall X, post_checked (overlay defaults [(f_name f, X)])
              = Ok (sset (f_name f) X post_defaults)) /\
   aget (f_name f) post_defaults <> None /\ seqb (f_name f) (s "extra_filetypes") = true.
 
@@ -1416,8 +1416,235 @@ Example ill_typed_md_examples :
   py_int (s "four") = None /\ py_int (s "1__0") = None /\ py_int (s "0x10") = None.
 Proof. repeat split; vm_compute; reflexivity. Qed.
 
-(* the full demand: whatever the format, a value that is not of the declared type is rejected with
-   a message naming the option -- false for fpm.toml and --config, whose values are not checked *)
+(* ------------------------------------------------------------------ ill-typed values, fpm.toml and --config *)
+(* the loop of __post_init__ over the bool / int / str options *)
+Lemma check_scalars_app l1 l2 :
+  check_scalars (l1 ++ l2) = do a <- check_scalars l1; do b <- check_scalars l2; Ok (a ++ b).
+Proof.
+  induction l1 as [|[t [k v]] l1 IH]; cbn [app check_scalars].
+  - cbn [bind]. destruct (check_scalars l2); reflexivity.
+  - destruct (check_scalar t k v); cbn [bind]; try reflexivity. rewrite IH.
+    destruct (check_scalars l1); cbn [bind]; try reflexivity.
+    destruct (check_scalars l2); reflexivity.
+Qed.
+
+Lemma check_scalars_frame l1 s1 t k X l2 s2 :
+  check_scalars l1 = Ok s1 -> check_scalars l2 = Ok s2 ->
+  check_scalars (l1 ++ (t, (k, X)) :: l2) = do v <- check_scalar t k X; Ok (s1 ++ (k, v) :: s2).
+Proof.
+  intros H1 H2. rewrite check_scalars_app, H1. cbn [bind check_scalars]. rewrite H2.
+  destruct (check_scalar t k X); reflexivity.
+Qed.
+
+Lemma check_scalars_err l1 s1 t k X l2 e o n :
+  check_scalars l1 = Ok s1 -> check_scalar t k X = Err e o n ->
+  check_scalars (l1 ++ (t, (k, X)) :: l2) = Err e o n.
+Proof. intros H1 H2. rewrite check_scalars_app, H1. cbn [bind check_scalars]. now rewrite H2. Qed.
+
+(* the (declared type, field) pairs that the loop walks when the keyword arguments are kw *)
+Definition tkvs_of (kw : list (str * pv)) : list (tyclass * (str * pv)) :=
+  combine field_types (wrap_lists (set_relative (overlay defaults kw))).
+Fixpoint idx (k : str) (l : list str) : nat :=
+  match l with [] => 0 | x :: l' => if seqb k x then 0 else S (idx k l') end.
+
+(* per option of a checked type: it is accepted by __init__, the fields before it pass the loop
+   with their defaults, it sits at its place whatever its value; for flags and numbers the fields
+   after it do not depend on its value and pass too *)
+Definition scalar_facts (k : str) (t : tyclass) (n : nat) : Prop :=
+  (forall X, first_bad_key [(k, X)] = None) /\
+  check_scalars (firstn n (tkvs_of [])) = Ok (map snd (firstn n (tkvs_of []))) /\
+  (forall X, tkvs_of [(k, X)] = firstn n (tkvs_of []) ++ (t, (k, X)) :: skipn (S n) (tkvs_of [(k, X)])) /\
+  (is_conv_ty t = true ->
+   (forall X, skipn (S n) (tkvs_of [(k, X)]) = skipn (S n) (tkvs_of [])) /\
+   check_scalars (skipn (S n) (tkvs_of [])) = Ok (map snd (skipn (S n) (tkvs_of [])))).
+
+Definition scalar_ok (f : field) : Prop :=
+  is_scalar_ty (f_ty f) = true -> f_init f = true ->
+  scalar_facts (f_name f) (f_ty f) (idx (f_name f) schema_names).
+
+Lemma scalar_ok_all : Forall scalar_ok project_schema.
+Proof.
+  unfold project_schema.
+  repeat (apply Forall_cons;
+          [unfold scalar_ok, scalar_facts; cbn [f_name f_ty f_init is_scalar_ty is_conv_ty]; intros S I;
+           first [discriminate S | discriminate I
+                 | split; [intros X; vm_compute; reflexivity|];
+                   split; [vm_compute; reflexivity|];
+                   split; [intros X; vm_compute; reflexivity|];
+                   intros C; first [discriminate C
+                                   | split; [intros X; vm_compute; reflexivity|vm_compute; reflexivity]]]|]).
+  apply Forall_nil.
+Qed.
+
+Lemma settable_field k t : field_ty k = Some t -> settable k = true ->
+  exists f, In f project_schema /\ f_name f = k /\ f_ty f = t /\ f_init f = true /\ name_ok k = true.
+Proof.
+  unfold settable. intros T St. destruct (find_field project_schema k) as [f|] eqn:F; [|discriminate].
+  destruct (find_field_name _ _ _ F) as [E Hin]. destruct (schema_field_facts f Hin) as [N T'].
+  rewrite E in *. exists f. repeat split; auto. congruence.
+Qed.
+
+Lemma scalar_facts_of k t : field_ty k = Some t -> settable k = true -> is_scalar_ty t = true ->
+  scalar_facts k t (idx k schema_names).
+Proof.
+  intros T St Sc. destruct (settable_field k t T St) as (f & Hin & <- & <- & I & _).
+  pose proof scalar_ok_all as A. rewrite Forall_forall in A. exact (A f Hin Sc I).
+Qed.
+
+(* what the loop rejects: a value that is neither of the declared type nor None nor a text that
+   converts *)
+Definition scalar_rejects (t : tyclass) (X : pv) : bool :=
+  match X with
+  | PNone => false
+  | PStr x =>
+    match t with
+    | TBool => negb (seqb (lower x) (s "true")) && negb (seqb (lower x) (s "false"))
+    | TInt | TOptInt => match py_int x with None => true | Some _ => false end
+    | _ => false
+    end
+  | _ => negb (same_type t X)
+  end.
+
+Lemma check_scalar_rejects t k X : is_scalar_ty t = true -> scalar_rejects t X = true ->
+  check_scalar t k X = Err (s "ValueError") k true.
+Proof.
+  intros Sc R. destruct t; try discriminate Sc; destruct X; try discriminate R; try reflexivity;
+    cbn [scalar_rejects] in R.
+  - apply andb_true_iff in R as [R1 R2]. apply negb_true_iff in R1, R2.
+    cbn [check_scalar same_type]. unfold convert_setting. cbn [same_type]. unfold convert_to_bool, str_to_bool.
+    now rewrite R1, R2.
+  - cbn [check_scalar same_type]. unfold convert_setting. cbn [same_type]. unfold convert_to_int.
+    destruct (py_int x); [discriminate R|reflexivity].
+  - cbn [check_scalar same_type]. unfold convert_setting. cbn [same_type]. unfold convert_to_int.
+    destruct (py_int x); [discriminate R|reflexivity].
+Qed.
+
+Lemma construct_rejects k t X : field_ty k = Some t -> settable k = true -> is_scalar_ty t = true ->
+  scalar_rejects t X = true -> construct [(k, X)] = Err (s "ValueError") k true.
+Proof.
+  intros T St Sc R. destruct (scalar_facts_of k t T St Sc) as (B & P & D & _).
+  unfold construct. rewrite B. unfold post_init, post_checked. fold (tkvs_of [(k, X)]). rewrite (D X).
+  now rewrite (check_scalars_err _ _ t k X _ _ _ _ P (check_scalar_rejects t k X Sc R)).
+Qed.
+
+Lemma effective_toml_raw i kv : forallb (fun p => match field_ty (fst p) with Some _ => true | None => false end) kv = true ->
+  effective (with_toml i kv) = after_load (with_toml i kv) [] (do st <- construct kv; Ok (st, [])).
+Proof.
+  intros K. rewrite effective_unfold. unfold with_toml. cbn [i_cfg i_lines i_toml drop_unknown load_settings].
+  unfold run_toml. now rewrite (drop_unknown_known kv K).
+Qed.
+
+Lemma after_load_indep i i' w r : i_cli i = i_cli i' -> i_cwd i = i_cwd i' -> i_dir i = i_dir i' -> i_ford i = i_ford i' ->
+  after_load i w r = after_load i' w r.
+Proof. intros H1 H2 H3 H4. unfold after_load, project_dir. now rewrite H1, H2, H3, H4. Qed.
+
+(* fpm.toml and --config: the same table of raw values, whatever they are *)
+Theorem toml_config_agree_raw i kv :
+  forallb (fun p => match field_ty (fst p) with Some _ => true | None => false end) kv = true ->
+  nodup_strs (map fst kv) = true ->
+  effective (with_toml i kv) = effective (with_config i kv).
+Proof.
+  intros K N. rewrite (effective_toml_raw i kv K). rewrite (effective_unfold (with_config i kv)).
+  unfold with_config. cbn [i_cfg i_lines i_toml]. rewrite (drop_unknown_known kv K).
+  cbn [load_settings]. rewrite run_markdown_nil, (kw_update_from_nil kv N).
+  apply after_load_indep; reflexivity.
+Qed.
+
+Lemma known_one k t (X : pv) : field_ty k = Some t ->
+  forallb (fun p => match field_ty (fst p) with Some _ => true | None => false end) [(k, X)] = true.
+Proof. intros T. cbn [forallb fst]. now rewrite T. Qed.
+
+(* an ill-typed value for a bool / int / str option in fpm.toml or in --config is rejected, and
+   the message names the option *)
+Theorem ill_typed_toml_scalar i k t X :
+  field_ty k = Some t -> settable k = true -> is_scalar_ty t = true -> scalar_rejects t X = true ->
+  effective (with_toml i [(k, X)]) = Err (s "ValueError") k true.
+Proof.
+  intros T St Sc R. rewrite (effective_toml_raw i _ (known_one k t X T)).
+  now rewrite (construct_rejects k t X T St Sc R).
+Qed.
+
+Theorem ill_typed_config_scalar i k t X :
+  field_ty k = Some t -> settable k = true -> is_scalar_ty t = true -> scalar_rejects t X = true ->
+  effective (with_config i [(k, X)]) = Err (s "ValueError") k true.
+Proof.
+  intros T St Sc R. rewrite <- (toml_config_agree_raw i [(k, X)] (known_one k t X T) eq_refl).
+  now apply (ill_typed_toml_scalar i k t X).
+Qed.
+
+(* ------------------------------------------------------------------ flags and numbers given as text *)
+Lemma check_scalar_text t k x : is_conv_ty t = true ->
+  check_scalar t k (PStr x) = convert_setting t k (PList [PStr x]).
+Proof. destruct t; try discriminate; reflexivity. Qed.
+
+Lemma conv_result t k x v : is_conv_ty t = true -> convert_setting t k (PList [PStr x]) = Ok v ->
+  same_type t v = true /\ include_like (k, v) = false.
+Proof.
+  intros C. destruct t; try discriminate C; unfold convert_setting; cbn [same_type].
+  - unfold convert_to_bool, str_to_bool.
+    destruct (seqb (lower x) (s "true")); [intros [= <-]; auto|].
+    destruct (seqb (lower x) (s "false")); [intros [= <-]; auto|discriminate].
+  - unfold convert_to_int. destruct (py_int x); [intros [= <-]; auto|discriminate].
+  - unfold convert_to_int. destruct (py_int x); [intros [= <-]; auto|discriminate].
+Qed.
+
+Lemma check_scalar_same t k v : same_type t v = true -> check_scalar t k v = Ok v.
+Proof. intros H. unfold check_scalar. rewrite H. now destruct t. Qed.
+
+(* the settings object built from the text is the one built from the converted value *)
+Lemma construct_text k t x : field_ty k = Some t -> settable k = true -> is_conv_ty t = true ->
+  construct [(k, PStr x)] = do v <- convert_setting t k (PList [PStr x]); construct [(k, v)].
+Proof.
+  intros T St C.
+  assert (Sc : is_scalar_ty t = true) by (destruct t; try discriminate C; reflexivity).
+  destruct (scalar_facts_of k t T St Sc) as (B & P & D & Q). destruct (Q C) as [Q1 Q2].
+  assert (E : forall X, construct [(k, X)] =
+                        do v <- check_scalar t k X;
+                        do st <- post_core (map snd (firstn (idx k schema_names) (tkvs_of [])) ++ (k, v)
+                                            :: map snd (skipn (S (idx k schema_names)) (tkvs_of [])));
+                        filetypes_step st).
+  { intros X. unfold construct. rewrite B. unfold post_init, post_checked. fold (tkvs_of [(k, X)]).
+    rewrite (D X), (Q1 X), (check_scalars_frame _ _ t k X _ _ P Q2).
+    destruct (check_scalar t k X); reflexivity. }
+  rewrite (E (PStr x)), (check_scalar_text t k x C).
+  destruct (convert_setting t k (PList [PStr x])) as [v| |] eqn:Cv; cbn [bind]; try reflexivity.
+  destruct (conv_result t k x v C Cv) as [Sv _]. now rewrite (E v), (check_scalar_same t k v Sv).
+Qed.
+
+Lemma meta_text k x : name_ok k = true -> piece x = true -> meta_preprocessor (md_block k [x]) = [(k, [x])].
+Proof.
+  intros N P. pose proof (piece_stripped x P) as Sx.
+  destruct (name_ok_inv k N) as (c & r & E & _ & Sp & _ & D1 & D2 & _).
+  assert (B : exists l0, md_block k [x] = [l0] /\ begin_re l0 = false).
+  { eexists. split; [reflexivity|]. rewrite E. now apply (key_line_continues c). }
+  destruct B as (l0 & El & Bl).
+  unfold meta_preprocessor. rewrite El, Bl, <- El.
+  rewrite <- (app_nil_r (md_block k [x])).
+  now rewrite (meta_go_block k x [] [] None [] N Sx (Forall_nil _) eq_refl).
+Qed.
+
+(* a flag or number option written as the same text in the three formats: the same effective
+   configuration, or the same rejection naming the option *)
+Theorem text_values_agree i k t x :
+  field_ty k = Some t -> settable k = true -> is_conv_ty t = true -> piece x = true ->
+  effective (with_md i (md_block k [x])) = effective (with_toml i [(k, PStr x)]) /\
+  effective (with_toml i [(k, PStr x)]) = effective (with_config i [(k, PStr x)]).
+Proof.
+  intros T St C P. split; [|apply toml_config_agree_raw; [now apply (known_one k t)|reflexivity]].
+  destruct (settable_field k t T St) as (f & _ & _ & _ & _ & N).
+  rewrite (effective_toml_raw i _ (known_one k t _ T)), (construct_text k t x T St C).
+  rewrite effective_unfold. unfold with_md. cbn [i_cfg i_lines i_toml drop_unknown load_settings].
+  unfold run_markdown. rewrite (meta_text k x N P). cbn [convert_meta map]. rewrite T.
+  destruct (convert_setting t k (PList [PStr x])) as [v| |] eqn:Cv; cbn [bind fst snd].
+  - destruct (conv_result t k x v C Cv) as [_ Iv]. cbn [existsb]. rewrite Iv. cbn [orb].
+    rewrite kw_update_nil. apply after_load_indep; reflexivity.
+  - apply after_load_indep; reflexivity.
+  - apply after_load_indep; reflexivity.
+Qed.
+
+(* ------------------------------------------------------------------ the full demand, and what is left of it *)
+(* values that are of the declared type as TOML writes them (a bare string for a list, tables for
+   file types), or a flag / number given as a text that converts *)
 Definition native (t : tyclass) (X : pv) : bool :=
   match t, X with
   | TBool, PBool _ | (TInt | TOptInt), PInt _ | (TStr | TOptStr | TPath | TOptPath), PStr _ => true
@@ -1425,32 +1652,80 @@ Definition native (t : tyclass) (X : pv) : bool :=
   | (TDictStr | TDictFT), PDict _ | TDictFT, PList _ => true
   | _, _ => false
   end.
+Definition acceptable (t : tyclass) (X : pv) : bool :=
+  native t X ||
+  match t, X with
+  | TBool, PStr x => seqb (lower x) (s "true") || seqb (lower x) (s "false")
+  | (TInt | TOptInt), PStr x => match py_int x with Some _ => true | None => false end
+  | _, _ => false
+  end.
 
-Definition ill_typed_toml_statement : Prop :=
-  forall k t X, field_ty k = Some t -> native t X = false ->
-    exists e, run_toml [(k, X)] [] = Err e k true.
-Definition ill_typed_config_statement : Prop :=
-  forall i k t X, field_ty k = Some t -> native t X = false -> i_cfg i = Some [(k, X)] ->
-    exists e, effective i = Err e k true.
-
-Theorem ill_typed_refuted_toml : ~ ill_typed_toml_statement.
+Lemma unacceptable_rejected t X : is_scalar_ty t = true -> X <> PNone -> acceptable t X = false ->
+  scalar_rejects t X = true.
 Proof.
-  intros H. destruct (H (s "max_frontpage_items") TInt (PStr (s "4")) eq_refl eq_refl) as [e E].
-  vm_compute in E. discriminate E.
+  intros Sc N A. destruct t; try discriminate Sc; destruct X; try congruence; try discriminate A; try reflexivity;
+    cbn [acceptable native orb scalar_rejects] in *.
+  - apply orb_false_iff in A as [A1 A2]. now rewrite A1, A2.
+  - destruct (py_int x); [discriminate A|reflexivity].
+  - destruct (py_int x); [discriminate A|reflexivity].
 Qed.
 
-Theorem ill_typed_toml_witness :
-  field_is (run_toml [(s "max_frontpage_items", PStr (s "4"))] []) (s "max_frontpage_items") (PStr (s "4")) = true /\
-  field_is (run_markdown [s "max_frontpage_items: 4"] []) (s "max_frontpage_items") (PInt 4) = true.
-Proof. split; vm_compute; reflexivity. Qed.
+(* "whatever the option, a value that is not acceptable for its declared type is rejected with a
+   message naming the option" *)
+Definition ill_typed_statement : Prop :=
+  forall i k t X, field_ty k = Some t -> settable k = true -> X <> PNone -> acceptable t X = false ->
+    exists e, effective (with_toml i [(k, X)]) = Err e k true /\ effective (with_config i [(k, X)]) = Err e k true.
 
-Theorem ill_typed_refuted_config : ~ ill_typed_config_statement.
+(* TRUE for every option whose declared type is bool, int or str (Optional included) ... *)
+Theorem ill_typed_scalar_full i k t X :
+  field_ty k = Some t -> settable k = true -> is_scalar_ty t = true -> X <> PNone -> acceptable t X = false ->
+  effective (with_toml i [(k, X)]) = Err (s "ValueError") k true /\
+  effective (with_config i [(k, X)]) = Err (s "ValueError") k true.
+Proof.
+  intros T St Sc N A. pose proof (unacceptable_rejected t X Sc N A) as R.
+  split; [now apply (ill_typed_toml_scalar i k t X)|now apply (ill_typed_config_scalar i k t X)].
+Qed.
+
+(* ... and FALSE for the list, key/value-table, file-type and path options, whose values
+   __post_init__ does not check: exclude = 5 becomes the list [5] without a word *)
+Theorem ill_typed_refuted_nonscalar : ~ ill_typed_statement.
 Proof.
   intros H.
-  destruct (H (mkinput [] None (Some [(s "graph", PStr (s "maybe"))]) [] (s "/work/proj") (s "") (s "/opt/ford"))
-              (s "graph") TBool (PStr (s "maybe")) eq_refl eq_refl eq_refl) as [e E].
+  destruct (H demo_input (s "exclude") TListStr (PInt 5) eq_refl eq_refl) as (e & E & _);
+    [discriminate|reflexivity|].
   vm_compute in E. discriminate E.
 Qed.
+
+Example nonscalar_witness :
+  field_is (effective (with_toml demo_input [(s "exclude", PInt 5)])) (s "exclude") (PList [PInt 5]) = true /\
+  field_is (effective (with_config demo_input [(s "alias", PInt 5)])) (s "alias") (PInt 5) = true /\
+  effective (with_toml demo_input [(s "css", PInt 5)]) = Err (s "TypeError") (s "css") false.
+Proof. repeat split; vm_compute; reflexivity. Qed.
+
+(* the two former witnesses (recorded findings, repaired) *)
+Example ill_typed_toml_fixed :
+  field_is (effective (with_toml demo_input [(s "max_frontpage_items", PStr (s "4"))])) (s "max_frontpage_items") (PInt 4) = true /\
+  field_is (effective (with_md demo_input [s "max_frontpage_items: 4"])) (s "max_frontpage_items") (PInt 4) = true /\
+  effective (with_toml demo_input [(s "graph", PStr (s "maybe"))]) = Err (s "ValueError") (s "graph") true.
+Proof. repeat split; vm_compute; reflexivity. Qed.
+Example ill_typed_config_fixed :
+  effective (with_config demo_input [(s "graph", PStr (s "maybe"))]) = Err (s "ValueError") (s "graph") true /\
+  effective (with_md demo_input [s "graph: maybe"]) = Err (s "ValueError") (s "graph") true /\
+  field_is (effective (with_config demo_input [(s "max_frontpage_items", PStr (s "4"))])) (s "max_frontpage_items") (PInt 4) = true.
+Proof. repeat split; vm_compute; reflexivity. Qed.
+
+(* hypotheses of the theorems above are satisfiable; the not-settable field is rejected by name too *)
+Example ill_typed_scalar_examples :
+  field_ty (s "graph") = Some TBool /\ settable (s "graph") = true /\
+  acceptable TBool (PInt 3) = false /\ acceptable TBool (PStr (s "maybe")) = false /\
+  acceptable TBool (PStr (s "True")) = true /\ acceptable TInt (PStr (s "4")) = true /\
+  acceptable TInt (PBool true) = false /\ acceptable TOptStr (PInt 5) = false /\
+  acceptable TStr (PList [PStr (s "a")]) = false /\
+  settable (s "relative") = false /\
+  (forall X, construct [(s "relative", X)] = Err (s "TypeError") (s "relative") true) /\
+  piece (s "TRUE") = true /\
+  field_is (effective (with_toml demo_input [(s "search", PStr (s "FALSE"))])) (s "search") (PBool false) = true.
+Proof. repeat split; vm_compute; reflexivity. Qed.
 
 (* ------------------------------------------------------------------ paths *)
 (* the working directory enters only through the project directory it designates *)
